@@ -26,7 +26,7 @@ from elementpath.helpers import numeric_equal, numeric_not_equal, \
     node_position, get_double
 from elementpath.namespaces import XSD_ERROR, get_namespace, get_expanded_name
 from elementpath.datatypes import UntypedAtomic, QName, AnyURI, \
-    Duration, Integer, DoubleProxy10
+    Duration, Integer, Float
 from elementpath.xpath_nodes import ElementNode, DocumentNode, XPathNode, AttributeNode
 from elementpath.sequences import xlist
 from elementpath.sequence_types import is_instance
@@ -521,8 +521,9 @@ def evaluate__value_comparison_operators(self: XPathToken, context: ta.ContextTy
         return []
     elif any(isinstance(x, XPathFunction) for x in operands):
         raise self.error('FOTY0013', "cannot compare a function item")
-    elif all(isinstance(x, DoubleProxy10) for x in operands):
-        # Special case of two <class 'float'> values: use custom operators
+    elif all(isinstance(x, Float) for x in operands):
+        # Special case of two xs:float values, that are represented with double
+        # precision: use custom operators (xs:double values are compared exactly).
         if self.symbol == 'eq':
             return numeric_equal(*cast(list[float], operands))
         elif self.symbol == 'ne':
